@@ -451,11 +451,24 @@ func (d *Datastore) TransactionSet(ctx context.Context, transactionId string, tr
 		return nil, err
 	}
 
-	// Mark the transaction as successfully committed
-	transactionGuard.Success()
+	// Mark the transaction as successfully committed. A dry-run or a transaction that failed validation
+	// did not change anything and started no rollback timer, it must not remain registered.
+	if !dryRun && !transactionSetResponseHasErrors(response) {
+		transactionGuard.Success()
+	}
 
 	log.Infof("Transaction: %s - transacted", transactionId)
 	return response, err
+}
+
+// transactionSetResponseHasErrors returns true if validation errors are reported for any of the intents
+func transactionSetResponseHasErrors(rsp *sdcpb.TransactionSetResponse) bool {
+	for _, intent := range rsp.GetIntents() {
+		if len(intent.GetErrors()) > 0 {
+			return true
+		}
+	}
+	return false
 }
 
 func cacheUpdateToSdcpbUpdate(lvs tree.LeafVariantSlice) ([]*sdcpb.Update, error) {
